@@ -1010,7 +1010,7 @@ func (env *Zlisp) showStackHelper(stack *Stack, name string) {
 		label := fmt.Sprintf("%s %v", name, i)
 		switch x := ele.(type) {
 		case *Stack:
-			s, _ = x.Show(env, nil, label)
+			s, _ = x.Show(env, NewPrintState(), label)
 
 		case *Scope:
 			s, _ = x.Show(env, nil, label)
